@@ -241,7 +241,8 @@ CHECKS = {
         "technique": "property-based testing of concurrent writer/lifecycle programs through the gateway handlers (injected and real idle closes, auto-destroy, Destroy, modelled graceful stop and restart) with schedule perturbation; acknowledged-write history oracle after re-open",
         "level_text": "Bursts of concurrent Set/Increment/Patch writers alternate with Close, auto-destroy, Destroy, real idle eviction (1 s listener) and shutdown; afterwards every "
                       "swamp is re-opened from disk (or on a fresh engine over a snapshot of the root). Each acknowledged write must be visible unless a later or overlapping "
-                      "write/delete/destroy of the key exists. Open design-level findings are excluded from the main facets and forced in witness facets.",
+                      "write/delete/destroy of the key exists; partial removals (ShiftExpired taking only records with a past expiry, Delete/ShiftByKeys of a subset) "
+                      "must leave the swamp and every remaining acknowledged write intact. Open design-level findings are excluded from the main facets and forced in witness facets.",
         "level_note": "Detection is probabilistic; a violation is real. A harness-issued Swamp.Close() on an instance without active vigils stands for an idle-listener decision; "
                       "shutdown is MarkShuttingDown -> drain -> StopHydra as server.Stop does it; process exit is a copy of the data root taken when StopHydra returns.",
         "assumptions": ["ShiftExpired is only issued while the swamp is quiet", "delete durability is not part of the statement and not asserted"],
